@@ -221,8 +221,9 @@ def finish(res, level="model_checking"):
         json.dump(ev, fh, indent=1)
     if res.harness_errors:
         for e in res.harness_errors[:10]:
-            print("HARNESS-ERROR: " + e, file=sys.stderr)
-        return 2
+            print(("HARNESS-WARNING: " if res.confirmed else "HARNESS-ERROR: ") + e, file=sys.stderr)
+        if not res.confirmed:
+            return 2
     print("%s %s: states=%d transitions=%d nontrivial=%d exhaustive=%s violations=%d known=%d wall=%.1fs" % (
         res.prop, res.tier, res.states, res.transitions, res.nontrivial,
         res.exhaustive, len(res.confirmed), len(res.known_hits), wall))
